@@ -514,8 +514,17 @@ def summarize(interp, run):
             a['detail'] = r['detail']
         elif not r['ok'] and not a.get('detail'):
             a['detail'] = r['detail']
+    # functions (and their callers on the interpreter's stack) in which an access obligation was found undecidable
+    und = {}
+    for ob in interp.obligs.values():
+        if not ob.ok and getattr(ob, 'flagloop', None):
+            und.setdefault(ob.fn, ob.flagloop)
+            for fr in ob.stack:
+                und.setdefault(fr.split('@')[0], ob.flagloop)
     for k, a in agg.items():
         a['id'] = '%s|%s|%s' % (a['kind'], a['function'], a['name'])
+        if not a['ok'] and a['kind'] in ('post', 'returns', 'invariant', 'ownership') and a['function'] in und:
+            a['flagloop'] = und[a['function']]
         if not a['ok'] and a['kind'] in ('post', 'returns', 'invariant'):
             # a clause that is not established in a routine one of whose loops is steered by a flag carried across
             # iterations: the fact the flag stands for is outside the domain (Function.flag_loops), not a verdict
